@@ -1,6 +1,6 @@
-\* step-level pass P (hook H3): recorded scalars at every step, the full property on real snapshots at quiescence
-CONSTANT Threads = {"t1", "t2", "t3", "t4"}
-CONSTANT Keys <- TKeys
+\* (own tests of the repository: key / thread name pools) step-level pass P (hook H3): recorded scalars at every step, the full property on real snapshots at quiescence
+CONSTANT Threads <- OThreads
+CONSTANT Keys <- OKeys
 CONSTANT CvKeys = {}
 CONSTANT RevKeys = {}
 CONSTANT DocOf <- HDocOf
@@ -14,7 +14,7 @@ CONSTANT MaxOps = 1000000
 CONSTANT MaxSteps = 1000000
 CONSTANT SplitLoad = FALSE
 CONSTANT MaxUpd = 1000000
-CONSTANT Pool = 10
+CONSTANT Pool = 64
 CONSTANT SeqPrefix = 0
 CONSTRAINT Progress
 POSTCONDITION Accept
@@ -25,6 +25,7 @@ INVARIANT ItemsUnlockedR
 INVARIANT SingleFlightR
 INVARIANT Fresh
 INVARIANT FreshAfterInvalidate
+INVARIANT NoTornPeek
 INVARIANT Bounded
 INVARIANT ItemsExact
 INVARIANT BytesExact
